@@ -78,7 +78,7 @@ _MORE = {
             "third-party callees assumed read-only; plus deep-snapshot bounded check.", "static frame analysis of the real AST (may-alias) + bounded stand-in"),
     "C17": ("_match_exact (functional spec), _match_fuzzy (step contract: never overwrites, each consumed column under exactly one new key), _map_remaining_to_self and the bodies of "
             "infer_node_name_map / infer_edge_name_map proved: every column used by exactly one key, a column spelled like a required key or seg_id mapped to it. "
-            "The two display-name steps (_match_display_names_exact / _fuzzy, multi-column features included) are proved against the same step contract. Assumed: difflib / str.lower / build_display_name_mapping. "
+            "The two display-name steps (_match_display_names_exact / _fuzzy, multi-column features included) are proved against the same step contract. build_display_name_mapping proved to produce only keys of the given features. Assumed: difflib / str.lower. "
             "Bounded: end-to-end cross-check with the real difflib on a vocabulary of similar/competing names.",
             "contract-based deductive verification (loop invariants with ghost owner maps; callers checked against step contracts) + bounded cross-check"),
     "C18": ("add_cand_edges proved for every number of frames/detections/gaps: three nested loop invariants give 'edge a->b iff b is in the frame right after a's and within the maximum distance' "
@@ -93,6 +93,10 @@ _MORE = {
 for _k, (_t, _tech) in _MORE.items():
     CHECKS[_k] = {"category": "other", "text": _PB + _t, "note": _PROOF_NOTE + "Bounded stand-ins and assumed contracts are listed in evidence.coverage.bounded_stand_ins / trusted_base.",
                   "technique": _tech}
+CHECKS["C17"]["category"] = "proof"
+CHECKS["C17"]["text"] = CHECKS["C17"]["text"][len(_PB):]
+CHECKS["C17"]["note"] = ("Trusted: pyvc (own VC generator) + z3/cvc5; difflib.get_close_matches returns at most n of the possibilities; str.lower is a function; a list of distinct column names "
+                         "is abstracted to its set. Every function of _name_mapping.py that the two pipelines use is under contract; the bounded run is a cross-check.")
 CHECKS["C19"]["category"] = "proof"
 CHECKS["C19"]["text"] = CHECKS["C19"]["text"][len(_PB):]
 CHECKS["C19"]["note"] = ("Trusted: pyvc (own VC generator) + z3/cvc5; numpy label-array model (pyvc/arraymodel.py) and the networkx models of out_degree/copy/"
